@@ -79,6 +79,18 @@ def doc_names(doc):
             yield n
 
 
+def table_keys_of(v):
+    if v[0] == 'table':
+        for k, e in v[1]:
+            yield k
+            for x in table_keys_of(e):
+                yield x
+    elif v[0] == 'list':
+        for e in v[1]:
+            for x in table_keys_of(e):
+                yield x
+
+
 def classify_line(line):
     s = line.lstrip()
     if s.startswith('_'):
@@ -100,7 +112,7 @@ def diff_class(a, b):
 FILL_FIRST = [('char', 'abc', False), ('char', 'a b', True), ('char', "a'b c", True), ('char', 'a\'b"c', True), ('numb', '1.50(3)', False),
               ('char', 'x\ny', True), ('unk',), ('char', "it's \"so\"", True)]
 FILL_LENGTHS = list(range(1985, 2049))
-FILL_KINDS = ['list', 'loop', 'table', 'list-tail']
+FILL_KINDS = ['list', 'loop', 'table', 'list-tail', 'table-key']
 NFILL = len(FILL_FIRST) * len(FILL_LENGTHS) * len(FILL_KINDS)
 
 
@@ -120,6 +132,9 @@ def fill_probe_doc(j):
         entries = [('item', '_n', ('list', (('char', 'h', False), first, first, filler, first)))]
     elif kind == 'loop':
         entries = [('loop', ['_a', '_b', '_c'], [[first, filler, first], [filler, first, first]])]
+    elif kind == 'table-key':
+        # the filler as a key: the colon and the beginning of the entry's value must follow it on the same line
+        entries = [('item', '_t', ('table', (('k', first), ('q' * n, first), ('z', first))))]
     else:
         entries = [('item', '_t', ('table', (('k', first), ('m', filler))))]
     return [{'code': 'fill', 'entries': entries}]
@@ -171,6 +186,8 @@ def _run_case_body(ctx, L, i, version=2, scope=None):
                 # precondition class of the failure: names so long that a value cannot follow them on the same line
                 longest = max([len(n) for n in doc_names(doc)] or [0])
                 pre = ':name-over-2000-chars' if longest > 2000 else ''
+                if not pre and max([len(k) for v in B.doc_values(doc) for k in table_keys_of(v)] or [0]) > 2000:
+                    pre = ':table-key-over-2000-chars'
                 ctx.violation('write:rc:%d%s' % (rc, pre), 'cif_write failed with %d for a CIF within the documented precondition (longest data name: %d characters)' % (rc, longest), info)
             return
         if check_output(ctx, L, data, 2, info, orig_eq, B.has_nested_frames(doc)):
